@@ -32,6 +32,8 @@ def updFileRules (fr : Content) (c : Content) : Content :=
 
 /-! ### Deprecation (`_handle_deprecated_rule`) -/
 
+def rulePrefix : Str := "rule:".toList
+
 /-- `deprecated_rule.check_str != default.check_str` — comparison of the two check strings
 as Python values; the harness only uses strings here. -/
 def jvalStrNe : JVal → JVal → Bool
@@ -48,7 +50,7 @@ def handleDeprecated (enforceNew : Bool) (fileRules : Content) (d : RuleDefault)
       match afind old.1 fileRules with
       | some v =>
         -- `file_rule.check != deprecated_rule.check` compares two distinct objects: always true
-        if (parseValue v).print ≠ "rule:".toList ++ d.name ∧ (afind d.name fileRules).isNone
+        if (parseValue v).print ≠ rulePrefix ++ d.name ∧ (afind d.name fileRules).isNone
         then some (parseValue v) else none
       | none => none
     else none
